@@ -338,6 +338,43 @@ func TestCfgNew(t *testing.T) {
 					inEffect("dynamic_range", "offered "+got.String()+" outside "+c.DynFrom.String()+"-"+c.DynTo.String())
 				}
 			}
+			// a stranger that "reboots" with an address of the network the configuration does not let it have (outside the dynamic
+			// range, or any address under static_only): the request must not be acknowledged
+			{
+				want := uint32(0)
+				lo, hi := IPU32(c.SelfIP)&^uint32(1<<(32-c.Plen)-1)+2, IPU32(c.SelfIP)|uint32(1<<(32-c.Plen)-1)-1
+				for a := hi; a >= lo && a != 0; a-- {
+					taken := a == IPU32(c.SelfIP) || a&0xff == 0 || a&0xff == 0xff
+					for _, cl := range c.Clients {
+						taken = taken || (cl.IP != nil && IPU32(cl.IP) == a)
+					}
+					inDyn := c.DynFrom != nil && a >= IPU32(c.DynFrom) && a <= IPU32(c.DynTo)
+					if !taken && (c.StaticOnly || (c.DynFrom != nil && !inDyn)) {
+						want = a
+						break
+					}
+				}
+				if want != 0 {
+					frame := MsgSpec{Type: 3, MAC: net.HardwareAddr{2, 0, 0, 0, 0xdd, 2}, Xid: 0x2000, ReqIP: U32IP(want)}.Frame()
+					trx := time.Now().UnixNano()
+					env.Take()
+					env.Seg.Inject(0x0800, frame)
+					time.Sleep(8 * time.Second)
+					synctest.Wait()
+					sent, inj := env.Take()
+					obs := Observe(trx, sent, inj)
+					op := fmt.Sprintf("rx t=%d b=%s d=%d tend=%d probes=%s", trx, Hex(frame), obs.D, obs.Tend, obs.ProbesStr())
+					s.Op(op, obs.Answer(), true)
+					mon.Step(trx, frame, obs, op)
+					if len(obs.Tx) > 0 {
+						if rp := ParseReply(obs.Tx[0]); rp != nil && rp.Type == 5 {
+							s.Find(Finding{Property: "C18", Signature: "not-in-effect:range-on-request", Stream: "cfgnew",
+								What:     "a configured value is not in effect: dynamic_range / static_only (a client without reservation was acknowledged an address outside the dynamic range on a REQUEST)",
+								Ops:      []string{line, op}, Observed: "ACK " + rp.Yiaddr.String(), Config: fmt.Sprintf("%v", pc)})
+						}
+					}
+				}
+			}
 			env.Stop()
 			synctest.Wait()
 		})
